@@ -17,14 +17,16 @@ LEVEL_TEXT = ("Theorems over ALL interleavings, frame lists and backend behaviou
               "and runs the real Server.Handle over net.Pipe (and a fragmenting writer) with a gated backend.")
 LEVEL_NOTE = ("Trusted: Coq kernel + vm_compute; the hand model is tied to the Go code by LoopGen (syntactic order of events, mutex held, bodies of "
               "StartTag/ClearTag/TagDone/tflush.handle) and by the differential scenarios only; sync.Mutex/channel semantics, sequential consistency; "
-              "liveness is 'a server step is enabled' (scheduler fairness assumed); writes to the connection are assumed not to fail. "
+              "liveness is 'a server step is enabled' (scheduler fairness assumed). "
               "The clause 'delays only requests that the File contract orders after it' is covered here for the request loop and fidMu "
-              "(gated ReadAt / gated Close with unrelated traffic); the per-file lock contract itself is C07, other connections C16.")
+              "(unrelated fids and a second connection while a request sits in ReadAt/GetAttr/Walk/Close of a clunked or replaced fid/Close in another "
+              "connection's stop; a writer queued behind a blocked reader finishes after the release); connections are a product of independent loops "
+              "in the model (Loop/Multi.v); the per-file lock contract itself is C07, server-wide lock order C16.")
 DESIGN_REF = "6/C06"
 ASSUMPTIONS = [
     "sync.Mutex gives mutual exclusion, channel close/receive and sync/atomic are sequentially consistent",
     "the Go scheduler eventually runs an enabled goroutine (liveness theorems state that a step is enabled)",
-    "writes to the connection do not fail while the scenario runs (a failed send is only logged by the server)",
+    "once the peer has stopped reading, every later Write to that connection fails (no partial recovery); a failed send is only logged by the server",
     "recv/send/handler internals are abstracted: a frame is Bad-conn | Reject tag | Req tag kind; a backend call returns when the environment releases it",
 ]
 TRUSTED_BASE = [
@@ -35,13 +37,13 @@ TRUSTED_BASE = [
     "the harness' gated backend, raw frame reader/validator and its race-free scenario generator",
 ]
 
-RTYP = {"read": 117, "clunk": 121}
+RTYP = {"read": 117, "clunk": 121, "attach": 105, "getattr": 25, "setattr": 27, "clone": 127}
 FILES = ["vh_common_test.go", "vhloop_backend_test.go", "vhloop_driver_test.go"]
 
 
 def sframe(f):
     k = f["k"]
-    if k in ("read", "clunk"):
+    if k in RTYP:
         g = "None" if f["gate"] < 0 else "(Some %d)" % f["gate"]
         return "SOp %d %d %s %d" % (f["tag"], RTYP[k], g, f["mode"] if f["gate"] < 0 else 0)
     if k == "flush":
@@ -59,10 +61,16 @@ def to_case(o):
     steps = []
     for st in o["scn"]["steps"]:
         if st["op"] == "send":
-            steps.append("SSend [%s]" % "; ".join(sframe(f) for f in (st.get("frames") or [])))
-        else:
+            steps.append("SSend %d%%nat [%s]" % (st.get("conn", 0), "; ".join(sframe(f) for f in (st.get("frames") or []))))
+        elif st["op"] == "release":
             steps.append("SRelease %d %d" % (st["gate"], st["mode"]))
-    phases = ["[%s]" % "; ".join("(%d, %d)" % (r["tag"], r["typ"]) for r in ph["replies"]) for ph in o["phases"]]
+        elif st["op"] == "break":
+            steps.append("SBreak %d%%nat" % st.get("conn", 0))
+        elif st["op"] == "hangup":
+            steps.append("SHangup %d%%nat" % st.get("conn", 0))
+        else:
+            raise ValueError(st["op"])
+    phases = ["[%s]" % "; ".join("(%d, %d)" % (r["tag"] + 65536 * r.get("conn", 0), r["typ"]) for r in ph["replies"]) for ph in o["phases"]]
     allr = [r for ph in o["phases"] for r in ph["replies"]] + list(o["trailing"])
     clean = o["left"] == 0 and not o["bad"] and not o["trailing"]
     valid = all(r["valid"] for r in allr)
@@ -90,7 +98,7 @@ def why(o):
     if not all(r["valid"] for r in allr):
         out.append("malformed (torn) reply frame")
     if any(r.get("inside") for r in allr):
-        out.append("Rflush arrived while the flushed request was inside its backend call")
+        out.append("Rflush arrived while a backend call made on behalf of the flushed request was still running")
     return "; ".join(out) or "reply multiset: a request answered twice / not at all / unsolicited reply / wrong type"
 
 
@@ -145,8 +153,9 @@ def run_loop(ctx, pid, test, files, shard=40):
     ctx.coverage.update({
         "evaluations": len(obs),
         "distinct_nontrivial": distinct,
-        "rule": "scripted scenarios against the real Server.Handle with a gated backend: fixed corpus (flush shapes, duplicate/re-used tags, rejected frames, "
-                "backend error/panic, blocked ReadAt/Close with unrelated traffic), batches of 2-4 with every release order, batches of 8-64 with random "
+        "rule": "scripted scenarios against the real Server.Handle with a gated backend: fixed corpus (flush shapes, duplicate/re-used and boundary tags, rejected frames, "
+                "backend error/panic, a request blocked in ReadAt/GetAttr/SetAttr/Walk/Close (clunk, replaced fid, stop of another connection) with unrelated traffic "
+                "on other fids and on a second connection, peer stops reading, peer hangs up), batches of 2-4 with every release order, batches of 8-64 with random "
                 "release order and immediate tag re-use, race-free random scripts; some over the fragmenting writer; distinct = distinct scripts",
         "correspondence": {"cases": len(obs), "mismatches": nm, "frames_sent": sum(nfr), "max_frames_in_a_scenario": max(nfr), "replies_seen": nrep,
                            "rflush_seen": nflush, "rflush_with_a_gated_target": ntarget,
